@@ -291,8 +291,10 @@ def _file_may_match(
                     return False
 
             elif expr.op == FilterOp.NE:
-                # For inequality: can only prune if entire file has same value
-                if file_min == file_max == expr.value:
+                # For inequality: can only prune if entire file has same value.
+                # Float bounds cannot prove that: min/max skip NaN, and a NaN
+                # row satisfies `!= value`.
+                if file_min == file_max == expr.value and not isinstance(file_min, float):
                     return False
 
             elif expr.op == FilterOp.GT:
@@ -321,7 +323,11 @@ def _file_may_match(
 
             elif expr.op == FilterOp.IN:
                 # For IN: at least one value in the list must be in [file_min, file_max]
-                if expr.value:
+                # A NaN literal matches NaN rows (is_in semantics), and NaN is
+                # never inside [min, max]: bounds cannot rule such a match out.
+                if expr.value and not any(
+                    isinstance(v, float) and v != v for v in expr.value
+                ):
                     has_possible_match = any(
                         file_min <= v <= file_max for v in expr.value
                     )
